@@ -207,6 +207,24 @@ TABLE = {
             "written only by _register_macro (unconditional overwrite) and looked up by name at call time; the live-edit "
             "validation raises for a started macro that is missing, retyped or modified.",
             "Completeness of the recursion detector over arbitrary macro call graphs is out of static reach (it follows only the first Call macro child)."),
+    "C17": ("path enumeration of the parser's nesting loop (exactly-once append), id-assignment audit, totality audit against a justified table",
+            "Every acyclic path through the body of the indentation loop of parse_method must call append_child(node) exactly "
+            "once and the first loop must produce exactly one node per line; every returned node carries an id; partial "
+            "operations (index, float/int of text, computed subscripts) outside try must be justified sites; the indentation "
+            "unit is 4 everywhere and odd indentation is flagged.",
+            "Decides exactly-one and never-raises structure for all method texts; the nesting law of the if/elif chain is value-level and not decided."),
+    "C18": ("constant folding of the grammar regexes + regex-AST queries + operator order table",
+            "Grammar's patterns are folded from the source and parsed with the regex parser: group names must match the keys "
+            "the parser reads, instruction_name cannot contain ':'/'#', argument cannot contain '#', rhs patterns are "
+            "anchored; operator lists must not place an operator before one containing it; every character of every unit in "
+            "QUANTITY_UNIT_MAP must lie in the unit class of the condition grammar.",
+            "Decides grammar-level facts; the unit class lacks '°' and 'µ' today (open known finding: a baseline test pins the regex text)."),
+    "C21": ("dispatch-table check of the match statement + symmetry of the comparability relation derived from literal tables",
+            "Every operator literal must be wired to the same-named Python comparison on (quantity_a, quantity_b); the "
+            "unit -> compatible-units relation is reconstructed from the literal special cases and QUANTITY_UNIT_MAP and "
+            "checked for symmetry on all 101 derived pairs (are_comparable consults only its first operand); both operands "
+            "must be normalised by the same expressions.",
+            "Exactness of Decimal/pint conversion and trichotomy on values are not decided. '%' vs vol%/wt%/mol% is asymmetric today (open known findings)."),
 }
 
 DESIGN_NA = {
